@@ -73,14 +73,73 @@ def model_values(m):
 
 
 # ------------------------------------------------------------------------------------------ running pyttb
+def lay(np, a, layout):
+    """the same values in another memory layout: None = as built, "F" / "C" = contiguous in that order,
+    "view" = a non-contiguous strided view (every second element of a larger array along every axis)"""
+    if layout is None or a.ndim == 0 or a.size == 0:
+        return a
+    if layout == "F":
+        return np.asfortranarray(a)
+    if layout == "C":
+        return np.ascontiguousarray(a)
+    if layout == "view":
+        big = np.full(tuple(2 * d + 1 for d in a.shape), 7.0 if a.dtype.kind == "f" else 7, dtype=a.dtype)
+        sl = tuple(slice(1, None, 2) for _ in a.shape)
+        big[sl] = a
+        return big[sl]
+    raise ValueError(layout)
+
+
 def mk_data(ttb, np, rd):
+    layout = rd.get("layout")
     if rd.get("sparse"):
-        return tgen.mk_sptensor(ttb, np, rd["shape"], rd["subs"], rd["vals"])
-    return tgen.mk_tensor(ttb, np, rd["shape"], rd["data"])
+        if layout is None:
+            return tgen.mk_sptensor(ttb, np, rd["shape"], rd["subs"], rd["vals"])
+        s = lay(np, np.array(rd["subs"], dtype=int).reshape((len(rd["subs"]), len(rd["shape"]))), layout)
+        v = lay(np, np.array(rd["vals"], dtype=float).reshape((len(rd["vals"]), 1)), layout)
+        return ttb.sptensor(s, v, tuple(rd["shape"]), copy=True)
+    if layout is None:
+        return tgen.mk_tensor(ttb, np, rd["shape"], rd["data"])
+    return ttb.tensor(lay(np, tgen.np_dense(np, rd["shape"], rd["data"]), layout), tuple(rd["shape"]), copy=True)
 
 
-def init_mats(np, init):
-    return [np.array(F, dtype=float) / float(init["den"]) for F in init["factors"]]
+def init_mats(np, init, layout=None):
+    if init.get("exact"):
+        # exact values (observed start of another run): [[num, den]] pairs, every one a double
+        return [lay(np, np.array([[float(Fraction(x[0], x[1])) for x in row] for row in F], dtype=float).reshape((len(F), -1)), layout)
+                for F in init["factors"]]
+    return [lay(np, np.array(F, dtype=float) / float(init["den"]), layout) for F in init["factors"]]
+
+
+def exact_init(obs_init, fill_rng=None, shape=None, ranks=None):
+    """an observed start (obs_k / list-of-matrices observation) as an explicit `init` description with exact values;
+    a missing matrix (tucker_als leaves the first mode of the sweep out) is filled with arbitrary numbers from fill_rng"""
+    def pr(x):
+        f = fr(x)
+        return [f.numerator, f.denominator]
+    fs = []
+    for n, F in enumerate(obs_init["factors"]):
+        if F is None:
+            F = [[Fraction(fill_rng.randint(1, 8), 8) for _ in range(ranks[n])] for _ in range(shape[n])]
+        fs.append([[pr(x) for x in row] for row in F])
+    out = {"exact": True, "factors": fs}
+    if obs_init.get("weights") is not None:
+        out["weights"] = [pr(w) for w in obs_init["weights"]]
+    return out
+
+
+def init_arg(ttb, np, rd, kind):
+    """the starting guess as pyttb wants it: kind "k" = ktensor (cp_*, gcp; rd["init_as"] == "list": plain list, gcp only),
+    kind "l" = list of matrices (tucker_als); without rd["init"]: the string rd["init_str"] (default "random")"""
+    init = rd.get("init")
+    if not init:
+        return rd.get("init_str") or "random"
+    mats = [m.copy() if rd.get("layout") is None else m for m in init_mats(np, init, rd.get("layout"))]
+    if kind == "l" or rd.get("init_as") == "list":
+        return mats
+    if init.get("weights") is not None:
+        return ttb.ktensor(mats, np.array([float(Fraction(w[0], w[1])) for w in init["weights"]], dtype=float))
+    return ttb.ktensor(mats)
 
 
 @contextlib.contextmanager
@@ -107,7 +166,7 @@ def run(ttb, np, rd):
     res = {}
     with contextlib.redirect_stdout(buf), _quiet_logging():
         if alg == "cp_als":
-            ini = ttb.ktensor([m.copy() for m in init_mats(np, init)]) if init else "random"
+            ini = init_arg(ttb, np, rd, "k")
             M, M0, out = ttb.cp_als(X, int(rd["rank"]), stoptol=o.get("stoptol", 1e-4), maxiters=o["maxiters"],
                                     dimorder=list(o["dimorder"]) if o.get("dimorder") is not None else None,
                                     optdims=list(o["optdims"]) if o.get("optdims") is not None else None,
@@ -115,7 +174,7 @@ def run(ttb, np, rd):
             res = {"model": obs_k(np, M), "init": obs_k(np, M0), "fit": ex(out["fit"]), "iters": int(out["iters"]),
                    "normresidual": ex(out["normresidual"])}
         elif alg.startswith("cp_apr_"):
-            ini = ttb.ktensor([m.copy() for m in init_mats(np, init)]) if init else "random"
+            ini = init_arg(ttb, np, rd, "k")
             kw = {}
             for k in ("maxinneriters", "kappa", "kappatol", "epsActive", "mu0", "precompinds", "inexact", "lbfgsMem", "epsDivZero"):
                 if k in o:
@@ -132,7 +191,7 @@ def run(ttb, np, rd):
                           sequential=o.get("sequential", True), ranks=ranks)
             res = {"model": obs_t(np, T), "iters": 0}
         elif alg == "tucker_als":
-            ini = [m.copy() for m in init_mats(np, init)] if init else "random"
+            ini = init_arg(ttb, np, rd, "l")
             T, U0, out = ttb.tucker_als(X, list(rd["rank"]), stoptol=o.get("stoptol", 1e-4), maxiters=o["maxiters"],
                                         dimorder=list(o["dimorder"]) if o.get("dimorder") is not None else None,
                                         init=ini, printitn=pr)
@@ -142,9 +201,18 @@ def run(ttb, np, rd):
         elif alg == "gcp":
             from pyttb.gcp.handles import Objectives
             from pyttb.gcp.optimizers import LBFGSB
-            ini = ttb.ktensor([m.copy() for m in init_mats(np, init)]) if init else "random"
+            ini = init_arg(ttb, np, rd, "k")
             opt = LBFGSB(maxiter=int(o["maxiters"]), **({"m": o["m"]} if "m" in o else {}))
             obj = {"gaussian": Objectives.GAUSSIAN, "poisson": Objectives.POISSON}[o.get("objective", "gaussian")]
+            if rd.get("reuse_opt"):
+                # history: the SAME optimizer object (same constructor options) has already solved another problem of a different
+                # size; options are the constructor's, so the second solve must behave like one with a fresh object
+                wshape = (12, 11, 10)            # much larger than any generated problem (<= 36 cells)
+                nw = int(np.prod(wshape))
+                Xw = ttb.tensor((np.arange(1.0, nw + 1.0) % 7.0).reshape(wshape, order="F"))
+                ttb.gcp_opt(Xw, 1, obj, opt, init=ttb.ktensor([np.full((d, 1), 0.5) for d in wshape]), printitn=0)
+                if rd.get("seed") is not None:
+                    np.random.seed(int(rd["seed"]))
             M, M0, info = ttb.gcp_opt(X, int(rd["rank"]), obj, opt, init=ini, printitn=pr)
             res = {"model": obs_k(np, M), "init": obs_k(np, M0), "fit": ex(info["final_f"]), "iters": int(info["nit"]),
                    "funcalls": int(info["funcalls"]), "warnflag": int(info["warnflag"])}
